@@ -14,7 +14,10 @@ def search(ctx):
 
 def run(ctx):
     ctx.extract(["optables", "evalarms", "evalmem"])
-    ctx.prove(PROPS, extra_modules=["RotoV.Lemmas.ScalarBase", "RotoV.Lemmas.ScalarDiv", "RotoV.Lemmas.Scalar", "RotoV.Lemmas.ScalarEval", "RotoV.Model.RustStd", "RotoV.Model.Lir", "RotoV.Model.Clif"])
+    # the scalar theorems do not depend on Generated/EvalMem: built without the driver, so that a
+    # change of the memory / control-flow code is attributed to the theorems it breaks
+    ctx.prove(PROPS, extra_modules=["RotoV.Lemmas.ScalarBase", "RotoV.Lemmas.ScalarDiv", "RotoV.Lemmas.Scalar", "RotoV.Lemmas.ScalarEval", "RotoV.Model.RustStd", "RotoV.Model.Lir", "RotoV.Model.Clif"],
+              extra_targets=())
     # T2 memory_checked / T3 switch_agrees over Generated/EvalMem (Memory, Allocation, StackFrame,
     # the Switch arms of the evaluator and of the code generator)
     ctx.prove(PROPS_MEM, extra_modules=["RotoV.Model.EvalMem"])
@@ -50,4 +53,8 @@ def replay(ctx, data):
     inp = data["input"]
     case = inp.get("case", inp)
     rep = ctx.harness("c20", ["replay", json.dumps(case)])
-    return 1 if rep and rep.get("impl_violations") else 0
+    bad = bool(rep and rep.get("impl_violations"))
+    for v in (rep or {}).get("impl_violations", [])[:1]:
+        print("reproduced:", v.get("what"))
+    print("REPLAY", "reproduces the violation" if bad else "does not reproduce (no violation on this tree)")
+    return 1 if bad else 0
